@@ -28,11 +28,11 @@ def replay_hb(ctx, beh, tag, perturb=False):
 def run(ctx):
     thorough = ctx.tier == "thorough"
     vlib.cargo_build()
-    for c in ["a", "b", "c", "d", "v2"]:
+    for c in ["a", "b", "c", "d", "e", "v2"]:
         ctx.model_check("MC_Heartbeat", "MC_Heartbeat_%s.cfg" % c, workers=8, timeout=900)
     ctx.exhaustive = True
     beh = []
-    for i, c in enumerate(["sim", "sim11", "sim21", "simv2"]):
+    for i, c in enumerate(["sim", "sim11", "sim21", "sim13", "simv2"]):
         r = ctx.model_check("MC_Heartbeat", "MC_Heartbeat_%s.cfg" % c, workers=1, simulate=2500 if thorough else 250, depth=120,
                             seed=ctx.seed + i, timeout=900)
         beh += r.replays
